@@ -1,7 +1,11 @@
 //! Reference semantics (see /verif/design/reference-semantics.md). Pure functions on spec
 //! values; never calls the function under test.
+//!
+//! `ref_instr(state_before, name)` returns what the documentation allows as the state after
+//! executing the named instruction once (the state passed in is the state AFTER the
+//! instruction itself has left the EXEC stack).
 
-use crate::spec::ItemSpec;
+use crate::spec::*;
 
 /// pushr's documented print format for code items: lists as "( a b )", booleans upper case,
 /// floats with three decimals, vectors as "[a,b]" without type prefix.
@@ -14,8 +18,16 @@ pub fn print_item(t: &ItemSpec) -> String {
         ItemSpec::Instr(n) | ItemSpec::Name(n) => n.clone(),
         ItemSpec::Int(v) => v.to_string(),
         ItemSpec::Float(v) => format!("{:.3}", v),
-        ItemSpec::Bool(v) => if *v { "TRUE".into() } else { "FALSE".into() },
-        ItemSpec::BVec(v) => format!("[{}]", v.iter().map(|b| if *b { "TRUE" } else { "FALSE" }).collect::<Vec<_>>().join(",")),
+        ItemSpec::Bool(v) => {
+            if *v {
+                "TRUE".into()
+            } else {
+                "FALSE".into()
+            }
+        }
+        ItemSpec::BVec(v) => {
+            format!("[{}]", v.iter().map(|b| if *b { "TRUE" } else { "FALSE" }).collect::<Vec<_>>().join(","))
+        }
         ItemSpec::IVec(v) => format!("[{}]", v.iter().map(|b| b.to_string()).collect::<Vec<_>>().join(",")),
         ItemSpec::FVec(v) => format!("[{}]", v.iter().map(|b| format!("{:.3}", b)).collect::<Vec<_>>().join(",")),
         ItemSpec::Index(c, d) => format!("{}/{}", c, d),
@@ -27,4 +39,693 @@ pub fn print_item(t: &ItemSpec) -> String {
 pub fn clamp(i: i32, d: usize) -> usize {
     let v = (i as i64).min(d as i64 - 1).max(0);
     v as usize
+}
+
+// ---------------------------------------------------------------------------------------------
+// expectations
+
+/// Slots of the expected state whose value is not determined by the documentation.
+#[derive(Clone, Debug, Default)]
+pub struct Wild {
+    /// top INTEGER may be any i32
+    pub int_top_any: bool,
+    /// these positions of the top INTVECTOR may hold any i32
+    pub ivec_top_any: Vec<usize>,
+    /// top FLOAT within this absolute tolerance of the expected one (class must agree)
+    pub float_top_tol: Option<f32>,
+    /// every element of the top FLOATVECTOR within tolerance (per element absolute)
+    pub fvec_top_tol: Option<Vec<f32>>,
+    /// top FLOATVECTOR / BOOLVECTOR / INTVECTOR only needs to be a permutation of the expected
+    pub fvec_top_perm: bool,
+}
+
+#[derive(Clone, Debug)]
+pub struct Alt {
+    pub state: StateSpec,
+    pub wild: Wild,
+}
+
+#[derive(Clone, Debug)]
+pub enum Expect {
+    /// the result must match one of the alternatives
+    OneOf(Vec<Alt>),
+    /// value not determined by docs/tests: not compared (C01/C10 still apply)
+    Unspecified(&'static str),
+    /// the reference does not cover this instruction
+    NotModelled,
+}
+
+impl Expect {
+    pub fn exact(state: StateSpec) -> Expect {
+        Expect::OneOf(vec![Alt { state, wild: Wild::default() }])
+    }
+    pub fn wild(state: StateSpec, wild: Wild) -> Expect {
+        Expect::OneOf(vec![Alt { state, wild }])
+    }
+    pub fn either(a: StateSpec, b: StateSpec) -> Expect {
+        Expect::OneOf(vec![Alt { state: a, wild: Wild::default() }, Alt { state: b, wild: Wild::default() }])
+    }
+    /// None = not comparable (unspecified / not modelled); Some(Ok) = matches; Some(Err(component, text))
+    pub fn judge(&self, actual: &StateSpec) -> Option<Result<(), (String, String)>> {
+        match self {
+            Expect::Unspecified(_) | Expect::NotModelled => None,
+            Expect::OneOf(alts) => {
+                let mut first_err = None;
+                for a in alts {
+                    match alt_matches(a, actual) {
+                        Ok(()) => return Some(Ok(())),
+                        Err(e) => {
+                            if first_err.is_none() {
+                                first_err = Some(e)
+                            }
+                        }
+                    }
+                }
+                Some(Err(first_err.unwrap_or(("?".into(), "no alternative".into()))))
+            }
+        }
+    }
+}
+
+fn close(a: f32, e: f32, tol: f32) -> bool {
+    if a.is_nan() || e.is_nan() {
+        return a.is_nan() && e.is_nan();
+    }
+    if a.is_infinite() || e.is_infinite() {
+        return a == e;
+    }
+    (a - e).abs() <= tol
+}
+
+fn alt_matches(alt: &Alt, actual: &StateSpec) -> Result<(), (String, String)> {
+    let mut a = actual.clone();
+    let e = &alt.state;
+    let w = &alt.wild;
+    if w.int_top_any && !a.ints.is_empty() && !e.ints.is_empty() {
+        a.ints[0] = e.ints[0];
+    }
+    if !w.ivec_top_any.is_empty() && !a.ivecs.is_empty() && !e.ivecs.is_empty() && a.ivecs[0].len() == e.ivecs[0].len() {
+        for p in &w.ivec_top_any {
+            if *p < a.ivecs[0].len() {
+                a.ivecs[0][*p] = e.ivecs[0][*p];
+            }
+        }
+    }
+    if let Some(t) = w.float_top_tol {
+        if !a.floats.is_empty() && !e.floats.is_empty() && close(a.floats[0], e.floats[0], t) {
+            a.floats[0] = e.floats[0];
+        }
+    }
+    if let Some(ts) = &w.fvec_top_tol {
+        if !a.fvecs.is_empty() && !e.fvecs.is_empty() && a.fvecs[0].len() == e.fvecs[0].len() && ts.len() == e.fvecs[0].len() {
+            for i in 0..ts.len() {
+                if close(a.fvecs[0][i], e.fvecs[0][i], ts[i]) {
+                    a.fvecs[0][i] = e.fvecs[0][i];
+                }
+            }
+        }
+    }
+    if w.fvec_top_perm && !a.fvecs.is_empty() && !e.fvecs.is_empty() {
+        let key = |v: &Vec<f32>| {
+            let mut k: Vec<u32> = v.iter().map(|x| if x.is_nan() { 0x7fc00000 } else if *x == 0.0 { 0 } else { x.to_bits() }).collect();
+            k.sort();
+            k
+        };
+        if key(&a.fvecs[0]) == key(&e.fvecs[0]) {
+            a.fvecs[0] = e.fvecs[0].clone();
+        }
+    }
+    match e.diff(&a) {
+        None => Ok(()),
+        Some(_) => {
+            let comps = e.differing_components(&a);
+            let c = comps.first().cloned().unwrap_or("?");
+            Err((c.to_string(), format!("{}: expected {} got {}", c, e.component_text(c), actual.component_text(c))))
+        }
+    }
+}
+
+// ---------------------------------------------------------------------------------------------
+// generic typed stacks
+
+pub const NINE: [&str; 9] = ["BOOLEAN", "INTEGER", "FLOAT", "NAME", "CODE", "EXEC", "BOOLVECTOR", "INTVECTOR", "FLOATVECTOR"];
+
+pub fn get_stack(s: &StateSpec, t: &str) -> Vec<ItemSpec> {
+    match t {
+        "BOOLEAN" => s.bools.iter().map(|x| ItemSpec::Bool(*x)).collect(),
+        "INTEGER" => s.ints.iter().map(|x| ItemSpec::Int(*x)).collect(),
+        "FLOAT" => s.floats.iter().map(|x| ItemSpec::Float(*x)).collect(),
+        "NAME" => s.names.iter().map(|x| ItemSpec::Name(x.clone())).collect(),
+        "CODE" => s.code.clone(),
+        "EXEC" => s.exec.clone(),
+        "BOOLVECTOR" => s.bvecs.iter().map(|x| ItemSpec::BVec(x.clone())).collect(),
+        "INTVECTOR" => s.ivecs.iter().map(|x| ItemSpec::IVec(x.clone())).collect(),
+        "FLOATVECTOR" => s.fvecs.iter().map(|x| ItemSpec::FVec(x.clone())).collect(),
+        _ => panic!("get_stack {}", t),
+    }
+}
+pub fn set_stack(s: &mut StateSpec, t: &str, v: Vec<ItemSpec>) {
+    match t {
+        "BOOLEAN" => s.bools = v.into_iter().map(|x| if let ItemSpec::Bool(b) = x { b } else { panic!() }).collect(),
+        "INTEGER" => s.ints = v.into_iter().map(|x| if let ItemSpec::Int(b) = x { b } else { panic!() }).collect(),
+        "FLOAT" => s.floats = v.into_iter().map(|x| if let ItemSpec::Float(b) = x { b } else { panic!() }).collect(),
+        "NAME" => s.names = v.into_iter().map(|x| if let ItemSpec::Name(b) = x { b } else { panic!() }).collect(),
+        "CODE" => s.code = v,
+        "EXEC" => s.exec = v,
+        "BOOLVECTOR" => s.bvecs = v.into_iter().map(|x| if let ItemSpec::BVec(b) = x { b } else { panic!() }).collect(),
+        "INTVECTOR" => s.ivecs = v.into_iter().map(|x| if let ItemSpec::IVec(b) = x { b } else { panic!() }).collect(),
+        "FLOATVECTOR" => s.fvecs = v.into_iter().map(|x| if let ItemSpec::FVec(b) = x { b } else { panic!() }).collect(),
+        _ => panic!("set_stack {}", t),
+    }
+}
+
+/// The generic position map of section D applied to a top-first element list.
+/// Returns None when the operation has no effect on the stack.
+pub fn stack_op<T: Clone>(op: &str, st: &[T], index: i32) -> Option<Vec<T>> {
+    let d = st.len();
+    let mut v: Vec<T> = st.to_vec();
+    match op {
+        "DUP" => {
+            if d >= 1 {
+                v.insert(0, st[0].clone());
+                Some(v)
+            } else {
+                None
+            }
+        }
+        "POP" => {
+            if d >= 1 {
+                v.remove(0);
+                Some(v)
+            } else {
+                None
+            }
+        }
+        "FLUSH" => Some(vec![]),
+        "SWAP" => {
+            if d >= 2 {
+                v.swap(0, 1);
+                Some(v)
+            } else {
+                None
+            }
+        }
+        "ROT" => {
+            if d >= 3 {
+                let e = v.remove(2);
+                v.insert(0, e);
+                Some(v)
+            } else {
+                None
+            }
+        }
+        "YANK" => {
+            if d >= 1 {
+                let c = clamp(index, d);
+                let e = v.remove(c);
+                v.insert(0, e);
+                Some(v)
+            } else {
+                None
+            }
+        }
+        "YANKDUP" => {
+            if d >= 1 {
+                let c = clamp(index, d);
+                v.insert(0, st[c].clone());
+                Some(v)
+            } else {
+                None
+            }
+        }
+        "SHOVE" => {
+            if d >= 1 {
+                let c = clamp(index, d);
+                let e = v.remove(0);
+                v.insert(c, e);
+                Some(v)
+            } else {
+                None
+            }
+        }
+        _ => None,
+    }
+}
+
+// ---------------------------------------------------------------------------------------------
+// code algebra (section G)
+
+pub fn replace_at(t: &ItemSpec, idx: usize, new: &ItemSpec) -> ItemSpec {
+    fn rec(t: &ItemSpec, idx: usize, new: &ItemSpec, counter: &mut usize) -> ItemSpec {
+        let here = *counter;
+        *counter += 1;
+        if here == idx {
+            // skip the whole subtree in the numbering
+            *counter += t.points() - 1;
+            return new.clone();
+        }
+        match t {
+            ItemSpec::List(v) => ItemSpec::List(v.iter().map(|c| rec(c, idx, new, counter)).collect()),
+            x => x.clone(),
+        }
+    }
+    let mut c = 0;
+    rec(t, idx, new, &mut c)
+}
+pub fn subst(t: &ItemSpec, pattern: &ItemSpec, with: &ItemSpec) -> ItemSpec {
+    if t == pattern {
+        return with.clone();
+    }
+    match t {
+        ItemSpec::List(v) => ItemSpec::List(v.iter().map(|c| subst(c, pattern, with)).collect()),
+        x => x.clone(),
+    }
+}
+/// parent list of the first pre-order occurrence of `pattern` strictly inside `t`
+pub fn container(t: &ItemSpec, pattern: &ItemSpec) -> Option<ItemSpec> {
+    if t == pattern {
+        return None;
+    }
+    fn rec(t: &ItemSpec, pattern: &ItemSpec) -> Option<ItemSpec> {
+        if let ItemSpec::List(v) = t {
+            for c in v {
+                if c == pattern {
+                    return Some(t.clone());
+                }
+                if let Some(r) = rec(c, pattern) {
+                    return Some(r);
+                }
+            }
+        }
+        None
+    }
+    rec(t, pattern)
+}
+pub fn occurs(t: &ItemSpec, pattern: &ItemSpec) -> bool {
+    t.preorder().iter().any(|x| *x == pattern)
+}
+
+// ---------------------------------------------------------------------------------------------
+// the dispatcher
+
+fn fired(s: StateSpec) -> Expect {
+    Expect::exact(s)
+}
+
+pub fn ref_instr(s0: &StateSpec, name: &str) -> Expect {
+    let mut s = s0.clone();
+    // ----- generic stack manipulation (section D)
+    if let Some((t, op)) = name.split_once('.') {
+        if NINE.contains(&t) {
+            match op {
+                "DUP" | "POP" | "FLUSH" | "SWAP" | "ROT" => {
+                    if t == "EXEC" && op == "DUP" {
+                        // documented identically (copy of the next EXEC item)
+                    }
+                    let st = get_stack(&s, t);
+                    if let Some(n) = stack_op(op, &st, 0) {
+                        set_stack(&mut s, t, n);
+                    }
+                    return fired(s);
+                }
+                "YANK" | "YANKDUP" | "SHOVE" => {
+                    if s.ints.is_empty() {
+                        return fired(s);
+                    }
+                    let i = s.ints.remove(0);
+                    let st = get_stack(&s, t);
+                    if let Some(n) = stack_op(op, &st, i) {
+                        set_stack(&mut s, t, n);
+                    }
+                    return fired(s);
+                }
+                "STACKDEPTH" => {
+                    let d = get_stack(&s, t).len() as i32;
+                    let d = if t == "INTEGER" { d + 1 } else { d };
+                    s.ints.insert(0, d);
+                    return fired(s);
+                }
+                "ID" => {
+                    let id = match t {
+                        "BOOLEAN" => 1,
+                        "BOOLVECTOR" => 2,
+                        "CODE" => 3,
+                        "EXEC" => 4,
+                        "FLOAT" => 5,
+                        "FLOATVECTOR" => 6,
+                        "INTEGER" => 9,
+                        "INTVECTOR" => 10,
+                        "NAME" => 11,
+                        _ => unreachable!(),
+                    };
+                    s.ints.insert(0, id);
+                    return fired(s);
+                }
+                "DEFINE" if t != "NAME" => {
+                    // pop NAME (missing: stop), pop top of T (missing: stop, name consumed)
+                    if s.names.is_empty() {
+                        return fired(s);
+                    }
+                    let n = s.names.remove(0);
+                    let mut st = get_stack(&s, t);
+                    if st.is_empty() {
+                        // name consumed or left: both "at most consumed operands"
+                        let consumed = s.clone();
+                        return Expect::either(consumed, s0.clone());
+                    }
+                    let v = st.remove(0);
+                    set_stack(&mut s, t, st);
+                    s.bindings.insert(n, v);
+                    return fired(s);
+                }
+                _ => {}
+            }
+        }
+    }
+    match name {
+        "NOOP" | "CODE.NOOP" => fired(s),
+        "INTEGER.DDUP" => {
+            if s.ints.len() >= 2 {
+                let (a, b) = (s.ints[0], s.ints[1]);
+                s.ints.insert(0, b);
+                s.ints.insert(0, a);
+            }
+            fired(s)
+        }
+        // ----- scalars (section C)
+        "BOOLEAN.=" | "BOOLEAN.AND" | "BOOLEAN.OR" => {
+            if s.bools.len() >= 2 {
+                let b = s.bools.remove(0);
+                let a = s.bools.remove(0);
+                s.bools.insert(
+                    0,
+                    match name {
+                        "BOOLEAN.=" => a == b,
+                        "BOOLEAN.AND" => a && b,
+                        _ => a || b,
+                    },
+                );
+            }
+            fired(s)
+        }
+        "BOOLEAN.NOT" => {
+            if !s.bools.is_empty() {
+                s.bools[0] = !s.bools[0];
+            }
+            fired(s)
+        }
+        "BOOLEAN.FROMFLOAT" => {
+            if s.floats.is_empty() {
+                return fired(s);
+            }
+            let x = s.floats[0];
+            let v = x != 0.0; // documented: FALSE if 0.0, TRUE otherwise
+            let mut kept = s.clone();
+            kept.bools.insert(0, v);
+            s.floats.remove(0);
+            s.bools.insert(0, v);
+            Expect::either(s, kept)
+        }
+        "BOOLEAN.FROMINTEGER" => {
+            if s.ints.is_empty() {
+                return fired(s);
+            }
+            let v = s.ints[0] != 0;
+            let mut kept = s.clone();
+            kept.bools.insert(0, v);
+            s.ints.remove(0);
+            s.bools.insert(0, v);
+            Expect::either(s, kept)
+        }
+        "INTEGER.+" | "INTEGER.-" | "INTEGER.*" => {
+            if s.ints.len() < 2 {
+                return fired(s);
+            }
+            let b = s.ints.remove(0) as i64;
+            let a = s.ints.remove(0) as i64;
+            let r = match name {
+                "INTEGER.+" => a + b,
+                "INTEGER.-" => a - b,
+                _ => a * b,
+            };
+            if r >= i32::MIN as i64 && r <= i32::MAX as i64 {
+                s.ints.insert(0, r as i32);
+                fired(s)
+            } else {
+                s.ints.insert(0, 0);
+                Expect::wild(s, Wild { int_top_any: true, ..Default::default() })
+            }
+        }
+        "INTEGER./" | "INTEGER.%" => {
+            if s.ints.len() < 2 {
+                return fired(s);
+            }
+            let b = s.ints.remove(0);
+            let a = s.ints.remove(0);
+            if b == 0 {
+                // no result; operands both consumed or both intact
+                return Expect::either(s, s0.clone());
+            }
+            if a == i32::MIN && b == -1 {
+                s.ints.insert(0, 0);
+                return Expect::wild(s, Wild { int_top_any: true, ..Default::default() });
+            }
+            // truncating quotient; truncated remainder (pinned by integer_modulus_pushes_result)
+            let (a, b) = (a as i64, b as i64);
+            let q = a / b;
+            let r = a - q * b;
+            s.ints.insert(0, if name == "INTEGER./" { q as i32 } else { r as i32 });
+            fired(s)
+        }
+        "INTEGER.<" | "INTEGER.=" | "INTEGER.>" => {
+            if s.ints.len() < 2 {
+                return fired(s);
+            }
+            let b = s.ints.remove(0);
+            let a = s.ints.remove(0);
+            s.bools.insert(
+                0,
+                match name {
+                    "INTEGER.<" => a < b,
+                    "INTEGER.=" => a == b,
+                    _ => a > b,
+                },
+            );
+            fired(s)
+        }
+        "INTEGER.ABS" => {
+            if s.ints.is_empty() {
+                return fired(s);
+            }
+            if s.ints[0] == i32::MIN {
+                return Expect::wild(s, Wild { int_top_any: true, ..Default::default() });
+            }
+            s.ints[0] = (s.ints[0] as i64).abs() as i32;
+            fired(s)
+        }
+        "INTEGER.MAX" | "INTEGER.MIN" => {
+            if s.ints.len() < 2 {
+                return fired(s);
+            }
+            let b = s.ints.remove(0);
+            let a = s.ints.remove(0);
+            s.ints.insert(0, if name == "INTEGER.MAX" { a.max(b) } else { a.min(b) });
+            fired(s)
+        }
+        "INTEGER.FROMBOOLEAN" => {
+            if s.bools.is_empty() {
+                return fired(s);
+            }
+            let b = s.bools.remove(0);
+            s.ints.insert(0, if b { 1 } else { 0 });
+            fired(s)
+        }
+        "INTEGER.FROMFLOAT" => {
+            if s.floats.is_empty() {
+                return fired(s);
+            }
+            let x = s.floats.remove(0);
+            let t = (x as f64).trunc();
+            if x.is_nan() || t < -2147483648.0 || t >= 2147483648.0 {
+                s.ints.insert(0, 0);
+                Expect::wild(s, Wild { int_top_any: true, ..Default::default() })
+            } else {
+                s.ints.insert(0, t as i64 as i32);
+                fired(s)
+            }
+        }
+        "FLOAT.+" | "FLOAT.-" | "FLOAT.*" => {
+            if s.floats.len() < 2 {
+                return fired(s);
+            }
+            let b = s.floats.remove(0);
+            let a = s.floats.remove(0);
+            s.floats.insert(
+                0,
+                match name {
+                    "FLOAT.+" => a + b,
+                    "FLOAT.-" => a - b,
+                    _ => a * b,
+                },
+            );
+            fired(s)
+        }
+        "FLOAT./" | "FLOAT.%" => {
+            if s.floats.len() < 2 {
+                return fired(s);
+            }
+            let b = s.floats.remove(0);
+            let a = s.floats.remove(0);
+            if b == 0.0 {
+                return Expect::either(s, s0.clone());
+            }
+            s.floats.insert(0, if name == "FLOAT./" { a / b } else { libm_fmod(a, b) });
+            fired(s)
+        }
+        "FLOAT.<" | "FLOAT.=" | "FLOAT.>" => {
+            if s.floats.len() < 2 {
+                return fired(s);
+            }
+            let b = s.floats.remove(0);
+            let a = s.floats.remove(0);
+            s.bools.insert(
+                0,
+                match name {
+                    "FLOAT.<" => a < b,
+                    "FLOAT.=" => a == b,
+                    _ => a > b,
+                },
+            );
+            fired(s)
+        }
+        "FLOAT.SIN" | "FLOAT.COS" | "FLOAT.TAN" | "FLOAT.EXP" => {
+            if s.floats.is_empty() {
+                return fired(s);
+            }
+            let x = s.floats[0] as f64;
+            let r = match name {
+                "FLOAT.SIN" => x.sin(),
+                "FLOAT.COS" => x.cos(),
+                "FLOAT.TAN" => x.tan(),
+                _ => x.exp(),
+            } as f32;
+            s.floats[0] = r;
+            let tol = if r.is_finite() { (4.0 * ulp(r)).max(1e-6 * r.abs()) } else { 0.0 };
+            if name == "FLOAT.EXP" && !r.is_finite() {
+                // overflow boundary: f32 exp may give MAX-ish or inf within rounding
+                let mut alt = s.clone();
+                alt.floats[0] = f32::MAX;
+                return Expect::OneOf(vec![
+                    Alt { state: s, wild: Wild::default() },
+                    Alt { state: alt, wild: Wild { float_top_tol: Some(f32::MAX * 1e-6), ..Default::default() } },
+                ]);
+            }
+            Expect::wild(s, Wild { float_top_tol: Some(tol), ..Default::default() })
+        }
+        "FLOAT.MAX" | "FLOAT.MIN" => {
+            if s.floats.len() < 2 {
+                return fired(s);
+            }
+            let b = s.floats.remove(0);
+            let a = s.floats.remove(0);
+            if a.is_nan() || b.is_nan() || a == b {
+                let mut s2 = s.clone();
+                s.floats.insert(0, a);
+                s2.floats.insert(0, b);
+                return Expect::either(s, s2);
+            }
+            let r = if name == "FLOAT.MAX" { if a > b { a } else { b } } else if a < b { a } else { b };
+            s.floats.insert(0, r);
+            fired(s)
+        }
+        "FLOAT.FROMBOOLEAN" => {
+            if s.bools.is_empty() {
+                return fired(s);
+            }
+            let b = s.bools.remove(0);
+            s.floats.insert(0, if b { 1.0 } else { 0.0 });
+            fired(s)
+        }
+        "FLOAT.FROMINTEGER" => {
+            if s.ints.is_empty() {
+                return fired(s);
+            }
+            let i = s.ints.remove(0);
+            s.floats.insert(0, i as f64 as f32);
+            fired(s)
+        }
+        "NAME.=" => {
+            if s.names.len() < 2 {
+                return fired(s);
+            }
+            let b = s.names.remove(0);
+            let a = s.names.remove(0);
+            s.bools.insert(0, a == b);
+            fired(s)
+        }
+        "NAME.CAT" => {
+            if s.names.len() < 2 {
+                return fired(s);
+            }
+            let b = s.names.remove(0);
+            let a = s.names.remove(0);
+            s.names.insert(0, format!("{} {}", a, b));
+            fired(s)
+        }
+        "NAME.QUOTE" => {
+            s.quote_name = true;
+            fired(s)
+        }
+        "NAME.SEND" => {
+            s.send_name = true;
+            fired(s)
+        }
+        "CODE.FROMBOOLEAN" => {
+            if !s.bools.is_empty() {
+                let b = s.bools.remove(0);
+                s.code.insert(0, ItemSpec::Bool(b));
+            }
+            fired(s)
+        }
+        "CODE.FROMFLOAT" => {
+            if !s.floats.is_empty() {
+                let b = s.floats.remove(0);
+                s.code.insert(0, ItemSpec::Float(b));
+            }
+            fired(s)
+        }
+        "CODE.FROMINTEGER" => {
+            if !s.ints.is_empty() {
+                let b = s.ints.remove(0);
+                s.code.insert(0, ItemSpec::Int(b));
+            }
+            fired(s)
+        }
+        "CODE.FROMNAME" => {
+            if !s.names.is_empty() {
+                let b = s.names.remove(0);
+                s.code.insert(0, ItemSpec::Name(b));
+            }
+            fired(s)
+        }
+        _ => crate::refmodel2::ref_instr2(s0, name),
+    }
+}
+
+pub fn ulp(x: f32) -> f32 {
+    if !x.is_finite() {
+        return 0.0;
+    }
+    let a = x.abs();
+    if a == 0.0 {
+        return f32::MIN_POSITIVE;
+    }
+    let next = f32::from_bits(a.to_bits() + 1);
+    next - a
+}
+
+/// IEEE fmod evaluated exactly in f64 (the f64 fmod of two f32 values is exact and representable
+/// in f32, because |result| < |b| and it is a multiple of the smaller operand's ulp).
+pub fn libm_fmod(a: f32, b: f32) -> f32 {
+    ((a as f64) % (b as f64)) as f32
 }
